@@ -7,7 +7,11 @@
 //! `set_column_property`, `remove_node_property`), covering-relation writes (create / delete
 //! relationships of a covered type, delete a member node; API and Cypher), `REBUILD`,
 //! `DROP`+`CREATE`, and hierarchy queries interleaved in PRNG-chosen order.  The same
-//! history minus the index DDL is applied to a twin store.
+//! history minus the index DDL is applied to a twin store.  In a quarter of the runs a SECOND
+//! hierarchy index (another name, sorted before or after the first; its own measure / aggregates
+//! / label restriction; mostly the same covering relation, sometimes another orientation or type
+//! set) is declared over the same stored relationship type; REBUILD / DROP+CREATE events then
+//! address one of the two, so queries are planned while both, one or none of them is fresh.
 //!
 //! Oracle (after every step): while the index is usable, every `OehIndex` answer
 //! (membership, subsumption, descendant set / count, LCA set, sum/count/min/max roll-up) of
@@ -16,7 +20,10 @@
 //! calls equals brute force on the model DAG; after a covering write the entry must be
 //! unusable and no plan may contain a hierarchy operator until REBUILD; a query whose plan
 //! contains a hierarchy operator returns the rows of the same query on the twin store
-//! (variable-length shapes) / of brute force on the model poset (subsumes() shapes).
+//! (variable-length shapes) / of brute force on the model poset (subsumes() shapes).  With two
+//! indexes every clause is evaluated per index: after a write each index whose covering relation
+//! contains the written type must be unusable; the index a plan names (`… via <name>`) must be
+//! fresh, and the brute-force order is the one of that index's declaration.
 
 use crate::kit::core::*;
 use crate::kit::model::*;
@@ -33,6 +40,10 @@ use std::panic::{catch_unwind, AssertUnwindSafe};
 pub struct C28;
 
 const N_SMALL: u64 = 1 + 2 + 8 + 64 + 1024;
+/// at most this many hierarchy indexes are declared side by side
+const MAX_IX: usize = 2;
+/// names of the second index: before and after the first one's name ("h") in the manager's name order
+const SECOND_NAMES: [&str; 4] = ["a", "z", "h2", "B"];
 const OPS: [RollupOp; 4] = [RollupOp::Sum, RollupOp::Count, RollupOp::Min, RollupOp::Max];
 
 #[derive(Clone, Debug)]
@@ -43,8 +54,8 @@ struct MNode {
     colonly: bool,
     fact: bool,
     q: i64,
-    /// measure event since the last (re)build: 0 none, 1 set, 2 removed
-    mev: u8,
+    /// measure event since the last (re)build of index i: 0 none, 1 set, 2 removed
+    mev: [u8; MAX_IX],
 }
 
 #[derive(Default)]
@@ -57,6 +68,7 @@ struct Model {
 
 #[derive(Clone, Debug)]
 struct Cfg {
+    name: String,
     reverse: bool,
     multi: bool,
     measure: bool,
@@ -65,13 +77,30 @@ struct Cfg {
 }
 
 impl Cfg {
-    fn from(case: &Case) -> Cfg {
-        let bits = case.knob_u64("ops", 15);
+    fn ops_of(bits: u64) -> Vec<RollupOp> {
         let mut ops: Vec<RollupOp> = OPS.iter().enumerate().filter(|(i, _)| bits & (1 << i) != 0).map(|(_, o)| *o).collect();
         if ops.is_empty() {
             ops.push(RollupOp::Sum);
         }
-        Cfg { reverse: case.knob_bool("reverse", false), multi: case.knob_bool("multi", false), measure: case.knob_bool("measure", true), mlabel: case.knob_bool("mlabel", false), ops }
+        ops
+    }
+    fn from(case: &Case) -> Cfg {
+        Cfg { name: "h".to_string(), reverse: case.knob_bool("reverse", false), multi: case.knob_bool("multi", false), measure: case.knob_bool("measure", true), mlabel: case.knob_bool("mlabel", false), ops: Cfg::ops_of(case.knob_u64("ops", 15)) }
+    }
+    /// the second index of the run (knob `i2`), declared over the same stored relationship type `T`
+    fn second(case: &Case) -> Option<Cfg> {
+        if !case.knob_bool("i2", false) {
+            return None;
+        }
+        let measure = case.knob_bool("i2_measure", true);
+        Some(Cfg {
+            name: SECOND_NAMES[case.knob_u64("i2_name", 0) as usize % SECOND_NAMES.len()].to_string(),
+            reverse: case.knob_bool("i2_reverse", false),
+            multi: case.knob_bool("i2_multi", false),
+            measure,
+            mlabel: measure && case.knob_bool("i2_mlabel", false),
+            ops: Cfg::ops_of(case.knob_u64("i2_ops", 15)),
+        })
     }
     fn covered(&self, ty: &str) -> bool {
         ty == "T" || (self.multi && ty == "U")
@@ -103,7 +132,7 @@ impl Cfg {
     fn ddl(&self) -> String {
         let ty = if self.multi { "T|U" } else { "T" };
         let rel = if self.reverse { format!("()<-[:{ty}]-()") } else { format!("()-[:{ty}]->()") };
-        let mut s = format!("CREATE HIERARCHY INDEX h ON {rel}");
+        let mut s = format!("CREATE HIERARCHY INDEX {} ON {rel}", self.name);
         if self.measure {
             s.push_str(if self.mlabel { " MEASURE H.m" } else { " MEASURE m" });
             s.push_str(" AGGREGATE ");
@@ -228,10 +257,10 @@ impl Model {
         }
         node.m
     }
-    fn mstate<'a>(&self, set: impl Iterator<Item = &'a u64>) -> &'static str {
+    fn mstate<'a>(&self, set: impl Iterator<Item = &'a u64>, ix: usize) -> &'static str {
         let mut st = 0u8;
         for n in set {
-            st = st.max(self.nodes.get(n).map(|x| x.mev).unwrap_or(0));
+            st = st.max(self.nodes.get(n).map(|x| x.mev[ix % MAX_IX]).unwrap_or(0));
         }
         match st {
             0 => "measures_as_built",
@@ -337,7 +366,7 @@ fn build_sides(g: &GraphStore, cfg: &Cfg, forest: bool) -> Vec<Side> {
 }
 
 /// Compare every answer of one index with brute force.  `who` = "manager" | "forced".
-fn check_index(idx: &OehIndex, who: &str, m: &Model, cfg: &Cfg, t: &Truth, step: usize, salt: u64, o: &mut Outcome) -> Option<Violation> {
+fn check_index(idx: &OehIndex, who: &str, ix: usize, m: &Model, cfg: &Cfg, t: &Truth, step: usize, salt: u64, o: &mut Outcome) -> Option<Violation> {
     let enc = idx.encoding().name();
     let sig = |what: &str, class: &str| format!("C28/api_{what}/{enc}_{who}/{class}");
     let members: Vec<u64> = t.nodes.iter().cloned().collect();
@@ -405,7 +434,7 @@ fn check_index(idx: &OehIndex, who: &str, m: &Model, cfg: &Cfg, t: &Truth, step:
                 Some(v) => {
                     o.probe(&format!("api_rollup_{}_answered", op.name()));
                     if v != exp {
-                        let class = if op == RollupOp::Count { "structure" } else { m.mstate(want.iter()) };
+                        let class = if op == RollupOp::Count { "structure" } else { m.mstate(want.iter(), ix) };
                         return Some(Violation::new(
                             sig(&format!("rollup_{}", op.name()), class),
                             format!("rollup({y}, {}) = {}, brute force {} over {want:?}", op.name(), rv_to_string(&v), rv_to_string(&exp)),
@@ -441,16 +470,23 @@ fn check_index(idx: &OehIndex, who: &str, m: &Model, cfg: &Cfg, t: &Truth, step:
     None
 }
 
+/// one hierarchy index of the run
+struct Ix {
+    cfg: Cfg,
+    declared: bool,
+    /// no write to ITS covering relation since its last successful CREATE / REBUILD
+    fresh: bool,
+}
+
 struct Sim {
     g: GraphStore,
     twin: GraphStore,
     engine: QueryEngine,
     engine_twin: QueryEngine,
     m: Model,
-    cfg: Cfg,
-    declared: bool,
-    /// no covering write since the last successful CREATE / REBUILD
-    fresh: bool,
+    /// [0] = the run's first index `h` (the only one in most runs), [1] = the second one (knob `i2`)
+    ixs: Vec<Ix>,
+    /// forced-encoding side indexes of ixs[0]
     sides: Vec<Side>,
     hash: u64,
 }
@@ -468,16 +504,54 @@ impl Sim {
         let node = &self.m.nodes[&n];
         format!("({var}:{} {{code: {}}})", node.label, node.code)
     }
-    fn usable(&self) -> bool {
-        self.g.hierarchy_index.get("h").map(|e| e.read().unwrap().usable()).unwrap_or(false)
+    fn usable(&self, ix: usize) -> bool {
+        self.g.hierarchy_index.get(&self.ixs[ix].cfg.name).map(|e| e.read().unwrap().usable()).unwrap_or(false)
     }
-    fn after_covering_write(&mut self, kind: &str, step: usize) -> Option<Violation> {
-        self.fresh = false;
-        self.sides.clear();
-        if self.declared && self.usable() {
-            return Some(Violation::new(format!("C28/usable_after_covering_write/{kind}/{}", self.cfg.tag()), format!("the index entry is still usable after {kind}"), step));
+    fn any_declared(&self) -> bool {
+        self.ixs.iter().any(|x| x.declared)
+    }
+    fn declared_count(&self) -> usize {
+        self.ixs.iter().filter(|x| x.declared).count()
+    }
+    /// state class of index `ix` for signatures: its declaration, plus — when it is not the only
+    /// declared index — its position in the manager's name order among the declared ones
+    fn tag(&self, ix: usize) -> String {
+        let n = self.declared_count();
+        if n <= 1 || !self.ixs[ix].declared {
+            return self.ixs[ix].cfg.tag();
         }
-        None
+        let pos = 1 + self.ixs.iter().filter(|x| x.declared && x.cfg.name < self.ixs[ix].cfg.name).count();
+        format!("{}/index_{pos}_of_{n}_by_name", self.ixs[ix].cfg.tag())
+    }
+    /// A write touched relationships of the types `tys`: every index whose covering relation
+    /// includes one of them must be unusable now.  Returns (violation, any declared index covered it).
+    fn after_write(&mut self, tys: &BTreeSet<&'static str>, kind: &str, step: usize, o: &mut Outcome) -> (Option<Violation>, bool) {
+        let mut hit = Vec::new();
+        for i in 0..self.ixs.len() {
+            if tys.iter().any(|t| self.ixs[i].cfg.covered(t)) {
+                hit.push(i);
+            }
+        }
+        let live: Vec<usize> = hit.iter().cloned().filter(|i| self.ixs[*i].declared).collect();
+        if live.len() >= 2 {
+            o.probe("covering_write_two_indexes");
+            if live.iter().all(|i| self.ixs[*i].fresh) {
+                o.probe("covering_write_two_fresh_indexes");
+            }
+        }
+        for i in &hit {
+            self.ixs[*i].fresh = false;
+            if *i == 0 {
+                self.sides.clear();
+            }
+        }
+        for i in &live {
+            if self.usable(*i) {
+                let v = Violation::new(format!("C28/usable_after_covering_write/{kind}/{}", self.tag(*i)), format!("index {} is still usable after {kind} (relationship types {tys:?}, its covering types {:?})", self.ixs[*i].cfg.name, self.ixs[*i].cfg.types()), step);
+                return (Some(v), true);
+            }
+        }
+        (None, !live.is_empty())
     }
     fn mix(&mut self, s: &str) {
         self.hash = hash_str(&format!("{}|{}", self.hash, s));
@@ -642,7 +716,7 @@ impl Scenario for C28 {
         }
     }
     fn rule(&self) -> &'static str {
-        "history = DAG construction (every third run: the k-th labelled DAG with <=5 nodes, k cycling through all 1099; otherwise a random tree/forest, near-tree (>=20 nodes, <=n/20 extra parents), low-width DAG or dense small DAG; quick <=60 nodes, thorough <=300) with integer measures, isolated nodes and a fact table, CREATE HIERARCHY INDEX (knobs: measure / aggregates / reversed arrow / two covered types / labelled measure) at a PRNG-chosen point, then <=40 (thorough <=80) events: measure set/removal via Cypher and the three store APIs, covering-relationship create/delete and member delete via API and Cypher, REBUILD, DROP+CREATE, and hierarchy queries (roll-up sum|count|min|max, descendant scan, [NOT] subsumes order test, hierarchy-driven count/sum over facts, near misses *1.. *1..3 * *0..2), each in its accepted spellings. After every step all OehIndex answers of the manager's index and of forced nested-set / near-tree / chain side indexes are compared with brute force on the model; each query is planned (hierarchy operator present = rewrite fired) and its rows compared with the twin store without the index and with brute force. Non-trivial = the index was usable at some step, and a measure update or covering write happened after it was built, and at least one query was answered through a rewrite. Distinct = hash of (knobs, event kinds, resolved ranks)."
+        "history = DAG construction (every third run: the k-th labelled DAG with <=5 nodes, k cycling through all 1099; otherwise a random tree/forest, near-tree (>=20 nodes, <=n/20 extra parents), low-width DAG or dense small DAG; quick <=60 nodes, thorough <=300) with integer measures, isolated nodes and a fact table, CREATE HIERARCHY INDEX (knobs: measure / aggregates / reversed arrow / two covered types / labelled measure) at a PRNG-chosen point, then <=40 (thorough <=80) events: measure set/removal via Cypher and the three store APIs, covering-relationship create/delete and member delete via API and Cypher, REBUILD, DROP+CREATE (in a quarter of the runs a second index with its own name/measure/aggregates is declared over the same relationship type right after, just before or some time after the first, and REBUILD / DROP+CREATE address either one), and hierarchy queries (roll-up sum|count|min|max, descendant scan, [NOT] subsumes order test, hierarchy-driven count/sum over facts, near misses *1.. *1..3 * *0..2), each in its accepted spellings. After every write each declared index covering the written type must be unusable; a plan may only name a fresh index. After every step all OehIndex answers of every usable declared index and of forced nested-set / near-tree / chain side indexes are compared with brute force on the model; each query is planned (hierarchy operator present = rewrite fired) and its rows compared with the twin store without the index and with brute force. Non-trivial = the index was usable at some step, and a measure update or covering write happened after it was built, and at least one query was answered through a rewrite. Distinct = hash of (knobs, event kinds, resolved ranks)."
     }
     fn real_components(&self) -> Vec<&'static str> {
         vec![
@@ -660,6 +734,7 @@ impl Scenario for C28 {
             "a node's measure is written either only through the column store (set_column_property) or only through the row paths, never both, so 'the measure of a node' is unambiguous",
             "subsumes()-shaped queries have no variable-length twin; their oracle is brute force on the declared poset (reflexive, members only), checked only when the rewrite fired",
             "sum over a subtree without any measured node is compared with the twin store only (0 vs NULL is the engine's choice)",
+            "with two indexes whose declarations order the nodes differently (other arrow / type set) a subsumes()-shaped query is compared with the order of the index the plan names; which index an unqualified subsumes() should mean is not asserted",
             "for posets above 70 members subsumption pairs / roots / LCA pairs are sampled deterministically per step (all true ancestor pairs are always checked)",
         ]
     }
@@ -685,6 +760,15 @@ impl Scenario for C28 {
             "side_nested-set",
             "side_near-tree",
             "side_chain",
+            "two_indexes_declared",
+            "covering_write_two_indexes",
+            "covering_write_two_fresh_indexes",
+            "one_fresh_one_stale",
+            "rewrite_via_first_named",
+            "rewrite_via_later_named",
+            "rewrite_while_other_index_stale",
+            "second_index_checked",
+            "measure_update_in_place_second_index",
         ];
         if tier == Tier::Thorough {
             v.push("poset_over_150");
@@ -740,11 +824,50 @@ impl Scenario for C28 {
         if pre >= dag_len {
             case.events.push(json!({"op":"create_index"}));
         }
+        let tail_start = case.events.len();
         let mut c = 0;
         while c < len {
             let evs = gen_mixed(&mut s.workload);
             c += evs.len();
             case.events.extend(evs);
+        }
+        // A second hierarchy index over the same stored relationship type in a quarter of the runs
+        // (drawn after everything else, so the single-index runs are the histories they always were).
+        if k.chance(1, 4) {
+            let reverse = case.knob_bool("reverse", false);
+            let multi = case.knob_bool("multi", false);
+            let m2 = k.chance(2, 3);
+            case.knobs.insert("i2".into(), json!(true));
+            case.knobs.insert("i2_name".into(), json!(k.below(SECOND_NAMES.len() as u64)));
+            case.knobs.insert("i2_measure".into(), json!(m2));
+            case.knobs.insert("i2_ops".into(), json!(if k.chance(1, 2) { 15 } else { 1 + k.below(15) }));
+            case.knobs.insert("i2_mlabel".into(), json!(m2 && k.chance(1, 8)));
+            // mostly the same covering relation as the first index, sometimes another orientation / type set
+            let same = k.chance(3, 4);
+            case.knobs.insert("i2_reverse".into(), json!(if same { reverse } else { k.chance(1, 2) }));
+            case.knobs.insert("i2_multi".into(), json!(if same { multi } else { k.chance(1, 2) }));
+            // which index a REBUILD / DROP+CREATE of the history addresses
+            let mut i = tail_start;
+            while i < case.events.len() {
+                let kind = op(&case.events[i]).to_string();
+                if matches!(kind.as_str(), "rebuild" | "drop" | "create_index") {
+                    let ix = s.sched.below(2);
+                    case.events[i]["ix"] = json!(ix);
+                    if kind == "drop" && i + 1 < case.events.len() && op(&case.events[i + 1]) == "create_index" {
+                        case.events[i + 1]["ix"] = json!(ix);
+                        i += 1;
+                    }
+                }
+                i += 1;
+            }
+            // where the second index is declared: right after the first one, just before it, or later
+            let first = case.events.iter().position(|e| op(e) == "create_index").unwrap_or(0);
+            let at = match k.weighted(&[3, 1, 2]) {
+                0 => first + 1,
+                1 => first,
+                _ => first + 1 + k.usize_below(case.events.len() - first),
+            };
+            case.events.insert(at.min(case.events.len()), json!({"op":"create_index","ix":1}));
         }
         case
     }
@@ -756,6 +879,13 @@ impl Scenario for C28 {
                     let mut e = ev.clone();
                     e["col"] = json!(false);
                     e["lab"] = json!(0);
+                    out.push(e);
+                }
+            }
+            "create_index" | "rebuild" | "drop" => {
+                if u(ev, "ix") != 0 {
+                    let mut e = ev.clone();
+                    e["ix"] = json!(0);
                     out.push(e);
                 }
             }
@@ -789,18 +919,11 @@ impl Scenario for C28 {
     fn execute(&self, case: &Case) -> Outcome {
         let mut o = Outcome::new();
         let cfg = Cfg::from(case);
-        let mut s = Sim {
-            g: GraphStore::new(),
-            twin: GraphStore::new(),
-            engine: QueryEngine::new(),
-            engine_twin: QueryEngine::new(),
-            m: Model::default(),
-            cfg: cfg.clone(),
-            declared: false,
-            fresh: false,
-            sides: Vec::new(),
-            hash: 0,
-        };
+        let mut ixs = vec![Ix { cfg: cfg.clone(), declared: false, fresh: false }];
+        if let Some(c2) = Cfg::second(case) {
+            ixs.push(Ix { cfg: c2, declared: false, fresh: false });
+        }
+        let mut s = Sim { g: GraphStore::new(), twin: GraphStore::new(), engine: QueryEngine::new(), engine_twin: QueryEngine::new(), m: Model::default(), ixs, sides: Vec::new(), hash: 0 };
         let mut sig_parts: Vec<String> = vec![format!("{:?}", case.knobs)];
         let mut was_usable = false;
         let mut post_build_change = false;
@@ -852,7 +975,7 @@ impl Scenario for C28 {
                         o.probe("harness_id_divergence");
                         break 'run;
                     }
-                    s.m.nodes.insert(ids[0], MNode { label, code, m: mval, colonly, fact, q, mev: 0 });
+                    s.m.nodes.insert(ids[0], MNode { label, code, m: mval, colonly, fact, q, mev: [0; MAX_IX] });
                     if fact {
                         // relationships to hierarchy members: X stored fact->member, Y stored member->fact
                         let hier = s.m.hier();
@@ -915,14 +1038,11 @@ impl Scenario for C28 {
                     };
                     s.m.edges.insert(new_id, (a, b, ty));
                     resolved = format!("{}>{}:{ty}:{via}", hier.iter().position(|x| *x == c).unwrap(), hier.iter().position(|x| *x == p).unwrap());
-                    if cfg.covered(ty) {
-                        if s.declared {
-                            post_build_change = true;
-                        }
-                        if let Some(v) = s.after_covering_write(&format!("create_relationship_{}", ["api", "cypher", "api_props"][via as usize % 3]), step) {
-                            o.violate(v);
-                            break 'run;
-                        }
+                    let (v, hit) = s.after_write(&[ty].into_iter().collect(), &format!("create_relationship_{}", ["api", "cypher", "api_props"][via as usize % 3]), step, &mut o);
+                    post_build_change |= hit;
+                    if let Some(v) = v {
+                        o.violate(v);
+                        break 'run;
                     }
                 }
                 "del_edge" => {
@@ -948,21 +1068,18 @@ impl Scenario for C28 {
                         s.m.edges.remove(&e);
                     }
                     resolved = format!("{}:{via}", cands.iter().position(|x| *x == e).unwrap());
-                    if cfg.covered(ty) {
-                        if s.declared {
-                            post_build_change = true;
-                        }
-                        if let Some(v) = s.after_covering_write(&format!("delete_relationship_{}", ["api", "cypher"][via as usize % 2]), step) {
-                            o.violate(v);
-                            break 'run;
-                        }
+                    let (v, hit) = s.after_write(&[ty].into_iter().collect(), &format!("delete_relationship_{}", ["api", "cypher"][via as usize % 2]), step, &mut o);
+                    post_build_change |= hit;
+                    if let Some(v) = v {
+                        o.violate(v);
+                        break 'run;
                     }
                 }
                 "del_node" => {
                     let hier = s.m.hier();
                     let Some(n) = pick(&hier, u(ev, "n")) else { continue };
                     let via = u(ev, "via");
-                    let covering = s.m.edges.values().any(|(a, b, t)| (*a == n || *b == n) && cfg.covered(t));
+                    let touched: BTreeSet<&'static str> = s.m.edges.values().filter(|(a, b, _)| *a == n || *b == n).map(|(_, _, t)| *t).collect();
                     if via == 1 {
                         let q = format!("MATCH {} DETACH DELETE n", s.pin(n, "n"));
                         if let Err(err) = s.both_write(&q) {
@@ -981,14 +1098,11 @@ impl Scenario for C28 {
                     s.m.edges.retain(|_, (a, b, _)| *a != n && *b != n);
                     s.m.nodes.remove(&n);
                     resolved = format!("{}:{via}", hier.iter().position(|x| *x == n).unwrap());
-                    if covering {
-                        if s.declared {
-                            post_build_change = true;
-                        }
-                        if let Some(v) = s.after_covering_write(&format!("delete_member_{}", ["api", "cypher"][via as usize % 2]), step) {
-                            o.violate(v);
-                            break 'run;
-                        }
+                    let (v, hit) = s.after_write(&touched, &format!("delete_member_{}", ["api", "cypher"][via as usize % 2]), step, &mut o);
+                    post_build_change |= hit;
+                    if let Some(v) = v {
+                        o.violate(v);
+                        break 'run;
                     }
                 }
                 "set_m" | "rm_m" => {
@@ -1023,7 +1137,7 @@ impl Scenario for C28 {
                             }
                         }
                         s.m.nodes.get_mut(&n).unwrap().m = Some(v);
-                        s.m.nodes.get_mut(&n).unwrap().mev = 1;
+                        s.m.nodes.get_mut(&n).unwrap().mev = [1; MAX_IX];
                     } else {
                         if node.colonly || via == 1 {
                             how = "remove_node_property";
@@ -1048,10 +1162,10 @@ impl Scenario for C28 {
                             o.probe("removal_kept_value");
                         }
                         s.m.nodes.get_mut(&n).unwrap().m = now;
-                        s.m.nodes.get_mut(&n).unwrap().mev = 2;
+                        s.m.nodes.get_mut(&n).unwrap().mev = [2; MAX_IX];
                     }
                     resolved = format!("{}:{how}", hier.iter().position(|x| *x == n).unwrap());
-                    if s.declared {
+                    if s.any_declared() {
                         post_build_change = true;
                     }
                     // mirror the manager's in-place update on the forced-encoding side indexes
@@ -1066,29 +1180,36 @@ impl Scenario for C28 {
                             s.sides.clear();
                         }
                     }
-                    if s.declared && s.fresh && cfg.measure && s.usable() {
+                    if s.ixs[0].declared && s.ixs[0].fresh && cfg.measure && s.usable(0) {
                         o.probe("measure_update_in_place");
                         o.probe(&format!("measure_{how}"));
+                    }
+                    if s.ixs.len() > 1 && s.ixs[1].declared && s.ixs[1].fresh && s.ixs[1].cfg.measure && s.usable(1) {
+                        o.probe("measure_update_in_place_second_index");
                     }
                 }
                 "create_index" | "rebuild" => {
                     let create = kind == "create_index";
-                    if create == s.declared {
+                    let ixn = u(ev, "ix") as usize;
+                    if ixn >= s.ixs.len() || create == s.ixs[ixn].declared {
                         continue;
                     }
-                    let q = if create { cfg.ddl() } else { "REBUILD HIERARCHY INDEX h".to_string() };
-                    let was_stale = !s.fresh;
+                    let icfg = s.ixs[ixn].cfg.clone();
+                    let q = if create { icfg.ddl() } else { format!("REBUILD HIERARCHY INDEX {}", icfg.name) };
+                    let was_stale = !s.ixs[ixn].fresh;
                     match run_write(&s.engine, &mut s.g, &q) {
                         Ok(Ok((cols, rows))) => {
-                            s.declared = true;
-                            s.fresh = true;
+                            s.ixs[ixn].declared = true;
+                            s.ixs[ixn].fresh = true;
                             for n in s.m.nodes.values_mut() {
-                                n.mev = 0;
+                                n.mev[ixn % MAX_IX] = 0;
                             }
-                            let t = s.m.truth(&cfg);
-                            s.sides = build_sides(&s.g, &cfg, t.forest);
-                            for side in &s.sides {
-                                o.probe(&format!("side_{}", side.enc.name()));
+                            let t = s.m.truth(&icfg);
+                            if ixn == 0 {
+                                s.sides = build_sides(&s.g, &icfg, t.forest);
+                                for side in &s.sides {
+                                    o.probe(&format!("side_{}", side.enc.name()));
+                                }
                             }
                             if t.nodes.len() > 150 {
                                 o.probe("poset_over_150");
@@ -1100,33 +1221,46 @@ impl Scenario for C28 {
                             if !create && was_stale {
                                 o.probe("rebuild_after_stale");
                             }
-                            resolved = enc;
+                            if s.declared_count() >= 2 {
+                                o.probe("two_indexes_declared");
+                                // one index rebuilt while the other still waits for its rebuild
+                                if s.ixs.iter().any(|x| x.declared && !x.fresh) {
+                                    o.probe("one_fresh_one_stale");
+                                }
+                            }
+                            resolved = format!("{ixn}{enc}");
                         }
                         Ok(Err(e)) => {
-                            o.violate(Violation::new(format!("C28/ddl_refused/{kind}/{}", cfg.tag()), format!("{q}: {e} (the covering relation is acyclic)"), step));
+                            o.violate(Violation::new(format!("C28/ddl_refused/{kind}/{}", s.tag(ixn)), format!("{q}: {e} (the covering relation is acyclic)"), step));
                             break 'run;
                         }
                         Err(p) => {
-                            o.violate(Violation::new(format!("C28/panic/{kind}/{}", cfg.tag()), format!("{q}: panic {p}"), step));
+                            o.violate(Violation::new(format!("C28/panic/{kind}/{}", s.tag(ixn)), format!("{q}: panic {p}"), step));
                             break 'run;
                         }
                     }
                 }
                 "drop" => {
-                    if !s.declared {
+                    let ixn = u(ev, "ix") as usize;
+                    if ixn >= s.ixs.len() || !s.ixs[ixn].declared {
                         continue;
                     }
-                    let _ = run_write(&s.engine, &mut s.g, "DROP HIERARCHY INDEX h");
-                    s.declared = false;
-                    s.fresh = false;
-                    s.sides.clear();
-                    if s.g.hierarchy_index.get("h").is_some() {
-                        o.violate(Violation::new("C28/drop/still_registered", "DROP HIERARCHY INDEX h left the entry registered", step));
+                    let name = s.ixs[ixn].cfg.name.clone();
+                    let _ = run_write(&s.engine, &mut s.g, &format!("DROP HIERARCHY INDEX {name}"));
+                    s.ixs[ixn].declared = false;
+                    s.ixs[ixn].fresh = false;
+                    if ixn == 0 {
+                        s.sides.clear();
+                    }
+                    resolved = format!("{ixn}");
+                    if s.g.hierarchy_index.get(&name).is_some() {
+                        o.violate(Violation::new("C28/drop/still_registered", format!("DROP HIERARCHY INDEX {name} left the entry registered"), step));
                         break 'run;
                     }
+
                 }
                 "query" => {
-                    if !s.declared {
+                    if !s.any_declared() {
                         continue;
                     }
                     let hier = s.m.hier();
@@ -1134,12 +1268,12 @@ impl Scenario for C28 {
                     let shape = ev["shape"].as_str().unwrap_or("rollup").to_string();
                     let b = |k: &str| ev[k].as_bool().unwrap_or(false);
                     let rp = s.pin(root, "r");
-                    let truth = s.m.truth(&cfg);
                     // ---- build the statement and its brute-force answer
                     let mut twin_compare = false;
                     let mut expected: Option<Vec<String>> = None;
                     let mut opname = String::new();
                     let mut mclass = "structure";
+                    let mut mclass_set: Option<BTreeSet<u64>> = None;
                     let q: String;
                     let mut near_spelling = "";
                     match shape.as_str() {
@@ -1167,7 +1301,7 @@ impl Scenario for C28 {
                                 q = format!("MATCH {pat} RETURN {f}({arg}){alias}");
                                 let vals: Vec<i64> = dset.iter().filter_map(|d| s.m.nodes[d].m).collect();
                                 if name != "count" {
-                                    mclass = s.m.mstate(dset.iter());
+                                    mclass_set = Some(dset.clone());
                                 }
                                 expected = match name {
                                     "count" => Some(vec![format!("I:{}", dset.len())]),
@@ -1188,6 +1322,36 @@ impl Scenario for C28 {
                             let ret = ["count(d)", "count(*)", "d"][out as usize];
                             opname = format!("{}{}", if neg { "not_" } else { "" }, ["count_d", "count_star", "nodes"][out as usize]);
                             q = format!("MATCH {pats} WHERE {}subsumes(d, r) RETURN {ret}", if neg { "NOT " } else { "" });
+                        }
+                        _ => {
+                            // hierarchy-driven aggregate over the fact table
+                            let dir = u(ev, "dir") % 2;
+                            let fpat = if b("flab") { "(e:F)" } else { "(e)" };
+                            let path = if dir == 0 { format!("{fpat}-[:X]->(x)") } else { format!("{fpat}<-[:Y]-(x)") };
+                            let pats = if b("swap") { format!("{rp}, {path}") } else { format!("{path}, {rp}") };
+                            let out = u(ev, "out") % 3;
+                            let ret = ["count(e)", "count(DISTINCT e)", "sum(e.q)"][out as usize];
+                            opname = ["count", "count_distinct", "sum"][out as usize].to_string();
+                            q = format!("MATCH {pats} WHERE subsumes(x, r) RETURN {ret}");
+                        }
+                    }
+                    // ---- plan: which index (if any) does the planner rewrite the query onto?
+                    let plan = plan_text(&s.g, &q);
+                    let fired = plan.as_ref().map(|p| p.contains("Hierarchy")).unwrap_or(false);
+                    let via_name: Option<String> = plan.as_ref().ok().and_then(|p| p.split(" via ").nth(1)).map(|rest| rest.chars().take_while(|c| c.is_alphanumeric() || *c == '_').collect());
+                    let used: usize = if fired { via_name.as_ref().and_then(|n| s.ixs.iter().position(|x| &x.cfg.name == n)).unwrap_or(0) } else { 0 };
+                    let ucfg = s.ixs[used].cfg.clone();
+                    let utag = s.tag(used);
+                    if let Some(set) = &mclass_set {
+                        mclass = s.m.mstate(set.iter(), used);
+                    }
+                    // brute force for the subsumes() shapes: the order of the index the plan names
+                    match shape.as_str() {
+                        "order" => {
+                            let truth = s.m.truth(&ucfg);
+                            let lab = ["H", "G", ""][u(ev, "lab") as usize % 3];
+                            let neg = b("neg");
+                            let out = u(ev, "out") % 3;
                             let rows: Vec<u64> = s
                                 .m
                                 .nodes
@@ -1201,16 +1365,10 @@ impl Scenario for C28 {
                                 .collect();
                             expected = Some(if out == 2 { rows.iter().map(|d| format!("N{d}")).collect() } else { vec![format!("I:{}", rows.len())] });
                         }
-                        _ => {
-                            // hierarchy-driven aggregate over the fact table
+                        "driven" => {
+                            let truth = s.m.truth(&ucfg);
                             let dir = u(ev, "dir") % 2;
-                            let fpat = if b("flab") { "(e:F)" } else { "(e)" };
-                            let path = if dir == 0 { format!("{fpat}-[:X]->(x)") } else { format!("{fpat}<-[:Y]-(x)") };
-                            let pats = if b("swap") { format!("{rp}, {path}") } else { format!("{path}, {rp}") };
                             let out = u(ev, "out") % 3;
-                            let ret = ["count(e)", "count(DISTINCT e)", "sum(e.q)"][out as usize];
-                            opname = ["count", "count_distinct", "sum"][out as usize].to_string();
-                            q = format!("MATCH {pats} WHERE subsumes(x, r) RETURN {ret}");
                             let ety = if dir == 0 { "X" } else { "Y" };
                             let pairs: Vec<(u64, u64)> = s
                                 .m
@@ -1227,34 +1385,40 @@ impl Scenario for C28 {
                                 _ => Some(vec![format!("I:{}", pairs.iter().map(|p| s.m.nodes[&p.0].q).sum::<i64>())]),
                             };
                         }
+                        _ => {}
                     }
                     let mut expected = expected;
                     if let Some(e) = expected.as_mut() {
                         e.sort();
                     }
-                    // ---- plan, run, compare
-                    let plan = plan_text(&s.g, &q);
-                    let fired = plan.as_ref().map(|p| p.contains("Hierarchy")).unwrap_or(false);
-                    let usable = s.usable();
-                    resolved = format!("{shape}:{opname}:{}:{}", hier.iter().position(|x| *x == root).unwrap(), fired);
+                    let any_usable = (0..s.ixs.len()).any(|i| s.ixs[i].declared && s.usable(i));
+                    let none_fresh = !s.ixs.iter().any(|x| x.declared && x.fresh);
+                    resolved = format!("{shape}:{opname}:{}:{}", hier.iter().position(|x| *x == root).unwrap(), if fired { format!("true{used}") } else { "false".to_string() });
                     o.steps += 1;
                     if fired {
                         rewrites += 1;
                         o.probe("rewrite_fired");
                         o.probe(&format!("rewrite_{shape}"));
-                        if !s.fresh {
-                            o.violate(Violation::new(format!("C28/answered_while_stale/{shape}/{}", cfg.tag()), format!("{q}: planned onto the index although the covering relation changed since the build\n{}", plan.clone().unwrap_or_default()), step));
+                        if !s.ixs[used].fresh {
+                            o.violate(Violation::new(format!("C28/answered_while_stale/{shape}/{utag}"), format!("{q}: planned onto index {} although its covering relation changed since its build\n{}", ucfg.name, plan.clone().unwrap_or_default()), step));
                             break 'run;
                         }
                         if shape == "near" {
-                            o.violate(Violation::new(format!("C28/near_miss_rewritten/{near_spelling}/{}", cfg.tag()), format!("{q}: planned as\n{}", plan.clone().unwrap_or_default()), step));
+                            o.violate(Violation::new(format!("C28/near_miss_rewritten/{near_spelling}/{utag}"), format!("{q}: planned as\n{}", plan.clone().unwrap_or_default()), step));
                             break 'run;
                         }
+                        if s.declared_count() >= 2 {
+                            let later = s.ixs.iter().any(|x| x.declared && x.cfg.name < ucfg.name);
+                            o.probe(if later { "rewrite_via_later_named" } else { "rewrite_via_first_named" });
+                            if s.ixs.iter().any(|x| x.declared && !x.fresh) {
+                                o.probe("rewrite_while_other_index_stale");
+                            }
+                        }
                     } else {
-                        if shape == "near" && usable {
+                        if shape == "near" && any_usable {
                             o.probe("near_miss_declined");
                         }
-                        if !s.fresh && matches!(shape.as_str(), "rollup" | "desc") {
+                        if none_fresh && matches!(shape.as_str(), "rollup" | "desc") {
                             o.probe("fallback_while_stale");
                         }
                     }
@@ -1275,8 +1439,8 @@ impl Scenario for C28 {
                                     let (clause, class) = if fired && a.1 == bb.1 {
                                         ("rewrite_vs_expansion", "column_name".to_string())
                                     } else if fired {
-                                        ("rewrite_vs_expansion", format!("{}/{mclass}", cfg.tag()))
-                                    } else { ("fallback_vs_twin", if s.fresh { "fresh".to_string() } else { "stale".to_string() }) };
+                                        ("rewrite_vs_expansion", format!("{utag}/{mclass}"))
+                                    } else { ("fallback_vs_twin", if !none_fresh { "fresh".to_string() } else { "stale".to_string() }) };
                                     o.violate(Violation::new(
                                         format!("C28/{clause}/{shape}_{opname}/{class}"),
                                         format!("{q}\n with index: {:?} {:?}\n twin store without index: {:?} {:?}\n plan: {}", a.0, a.1, bb.0, bb.1, plan.clone().unwrap_or_default()),
@@ -1308,7 +1472,7 @@ impl Scenario for C28 {
                                 (_, true) => "rewrite_vs_bruteforce",
                                 (_, false) => "fallback_vs_bruteforce",
                             };
-                            let class = if fired { format!("{}/{mclass}", cfg.tag()) } else if s.fresh { "fresh".to_string() } else { "stale".to_string() };
+                            let class = if fired { format!("{utag}/{mclass}") } else if !none_fresh { "fresh".to_string() } else { "stale".to_string() };
                             o.violate(Violation::new(format!("C28/{clause}/{shape}_{opname}/{class}"), format!("{q}\n returned {rows:?}\n brute force {exp:?}\n plan: {}", plan.clone().unwrap_or_default()), step));
                             break 'run;
                         }
@@ -1321,57 +1485,73 @@ impl Scenario for C28 {
             }
             sig_parts.push(format!("{kind}{resolved}"));
             o.steps += 1;
-            // ---- invariants after every step
-            if s.declared {
-                let usable = s.usable();
+            // ---- invariants after every step, for every declared index
+            let mut truths: Vec<((bool, bool), Truth)> = Vec::new();
+            for ixn in 0..s.ixs.len() {
+                if !s.ixs[ixn].declared {
+                    continue;
+                }
+                let icfg = s.ixs[ixn].cfg.clone();
+                let usable = s.usable(ixn);
                 s.mix(&format!("u{usable}"));
-                if usable && !s.fresh {
-                    o.violate(Violation::new(format!("C28/usable_while_stale/{kind}/{}", cfg.tag()), "the covering relation changed since the build and the entry reports usable".to_string(), step));
+                if usable && !s.ixs[ixn].fresh {
+                    o.violate(Violation::new(format!("C28/usable_while_stale/{kind}/{}", s.tag(ixn)), format!("the covering relation of index {} changed since its build and the entry reports usable", icfg.name), step));
                     break 'run;
                 }
-                if s.fresh {
-                    let t = s.m.truth(&cfg);
-                    if usable {
-                        was_usable = true;
-                        let entry = s.g.hierarchy_index.get("h").unwrap();
-                        let guard = entry.read().unwrap();
-                        let idx = guard.index.as_ref().unwrap();
-                        let r = catch_unwind(AssertUnwindSafe(|| check_index(idx, "manager", &s.m, &cfg, &t, step, step as u64, &mut o)));
-                        match r {
-                            Ok(Some(v)) => {
-                                drop(guard);
-                                o.violate(v);
-                                break 'run;
-                            }
-                            Ok(None) => {}
-                            Err(p) => {
-                                drop(guard);
-                                o.violate(Violation::new(format!("C28/panic/api/{}", cfg.tag()), format!("panic in OehIndex call: {}", panic_text(p)), step));
-                                break 'run;
-                            }
-                        }
-                    } else {
-                        o.probe("unusable_without_covering_write");
+                if !s.ixs[ixn].fresh {
+                    continue;
+                }
+                let key = (icfg.reverse, icfg.multi);
+                if !truths.iter().any(|(k, _)| *k == key) {
+                    truths.push((key, s.m.truth(&icfg)));
+                }
+                let t = &truths.iter().find(|(k, _)| *k == key).unwrap().1;
+                if usable {
+                    was_usable = true;
+                    if ixn > 0 {
+                        o.probe("second_index_checked");
                     }
-                    let mut side_violation = None;
-                    for side in &s.sides {
-                        let r = catch_unwind(AssertUnwindSafe(|| check_index(&side.idx, "forced", &s.m, &cfg, &t, step, step as u64 + 1, &mut o)));
-                        match r {
-                            Ok(Some(v)) => {
-                                side_violation = Some(v);
-                                break;
-                            }
-                            Ok(None) => {}
-                            Err(p) => {
-                                side_violation = Some(Violation::new(format!("C28/panic/api_forced_{}/{}", side.enc.name(), cfg.tag()), format!("panic in OehIndex call: {}", panic_text(p)), step));
-                                break;
-                            }
+                    let entry = s.g.hierarchy_index.get(&icfg.name).unwrap();
+                    let guard = entry.read().unwrap();
+                    let idx = guard.index.as_ref().unwrap();
+                    let r = catch_unwind(AssertUnwindSafe(|| check_index(idx, "manager", ixn, &s.m, &icfg, t, step, step as u64, &mut o)));
+                    match r {
+                        Ok(Some(v)) => {
+                            drop(guard);
+                            o.violate(v);
+                            break 'run;
+                        }
+                        Ok(None) => {}
+                        Err(p) => {
+                            drop(guard);
+                            o.violate(Violation::new(format!("C28/panic/api/{}", icfg.tag()), format!("panic in OehIndex call: {}", panic_text(p)), step));
+                            break 'run;
                         }
                     }
-                    if let Some(v) = side_violation {
-                        o.violate(v);
-                        break 'run;
+                } else {
+                    o.probe("unusable_without_covering_write");
+                }
+                if ixn != 0 {
+                    continue;
+                }
+                let mut side_violation = None;
+                for side in &s.sides {
+                    let r = catch_unwind(AssertUnwindSafe(|| check_index(&side.idx, "forced", 0, &s.m, &icfg, t, step, step as u64 + 1, &mut o)));
+                    match r {
+                        Ok(Some(v)) => {
+                            side_violation = Some(v);
+                            break;
+                        }
+                        Ok(None) => {}
+                        Err(p) => {
+                            side_violation = Some(Violation::new(format!("C28/panic/api_forced_{}/{}", side.enc.name(), icfg.tag()), format!("panic in OehIndex call: {}", panic_text(p)), step));
+                            break;
+                        }
                     }
+                }
+                if let Some(v) = side_violation {
+                    o.violate(v);
+                    break 'run;
                 }
             }
         }
